@@ -396,11 +396,19 @@ func (e *env) buildSet(rhs Expr, left any) (*inSet, error) {
 				return s, nil
 			}
 		}
-		rel, _, err := q.tableRelation(te, e.b.scope)
+		if s, ok := q.sets[rhs]; ok {
+			return s, nil
+		}
+		rel, tbl, err := q.tableRelation(te, e.b.scope)
 		if err != nil {
 			return nil, err
 		}
-		return fromRelation(rel), nil
+		if tbl != nil {
+			q.recordFullScan(tbl)
+		}
+		set := fromRelation(rel)
+		q.sets[rhs] = set
+		return set, nil
 	}
 	// explicit list / constant expression
 	if s, ok := q.sets[rhs]; ok {
@@ -439,6 +447,21 @@ func (e *env) buildSet(rhs Expr, left any) (*inSet, error) {
 			elems = arr
 		} else {
 			elems = []any{v}
+		}
+	}
+	// constant strings in the list are parsed as the type of the left side
+	// (Date, DateTime, numbers), like in comparisons
+	switch left.(type) {
+	case nil, string, FixedString, Tuple, []any, *Map:
+	default:
+		for i, el := range elems {
+			if str, ok := el.(string); ok {
+				c, err := coerceConstString(str, left)
+				if err != nil {
+					return nil, err
+				}
+				elems[i] = c
+			}
 		}
 	}
 	arity := 1
